@@ -16,7 +16,7 @@ verify)
   mkdir -p "$wt/_mutants"; cp "$demo" "$wt/_mutants/demo.py"
   (cd "$wt" && timeout 600 /venv/bin/python _mutants/demo.py >/tmp/mv_demo_$$.log 2>&1); with=$?
   suite=$(cd "$wt" && /venv/bin/python -m pytest -q -p no:cacheprovider --timeout=900 --continue-on-collection-errors 2>&1 | tail -1)
-  git -C "$wt" checkout -q -- . ; git -C "$wt" clean -qfd -e _mutants >/dev/null
+  git -C "$wt" reset -q --hard HEAD; git -C "$wt" clean -qfd -e _mutants >/dev/null
   (cd "$wt" && timeout 600 /venv/bin/python _mutants/demo.py >/dev/null 2>&1); without=$?
   echo "demo_with_change_exit=$with demo_without_exit=$without suite='$suite'"
   tail -3 /tmp/mv_demo_$$.log; rm -f /tmp/mv_demo_$$.log
